@@ -61,7 +61,7 @@ func TestGvcBoundedIssue(t *testing.T) {
 	ecKey, _ := ecdsa.GenerateKey(elliptic.P256(), rand.Reader)
 	signers := []issueSigner{
 		{"sm2", smKey, []SignatureAlgorithm{0, SM2WithSM3, SM2WithSHA1, SM2WithSHA256}, ECDSA},
-		{"rsa", rsaKey, []SignatureAlgorithm{0, SHA256WithRSA, SHA384WithRSA, SHA512WithRSA, SHA1WithRSA}, RSA},
+		{"rsa", rsaKey, []SignatureAlgorithm{0, SHA256WithRSA, SHA384WithRSA, SHA512WithRSA, SHA1WithRSA, SHA256WithRSAPSS, SHA384WithRSAPSS, SHA512WithRSAPSS}, RSA},
 		{"ecdsa", ecKey, []SignatureAlgorithm{0, ECDSAWithSHA256, ECDSAWithSHA384, ECDSAWithSHA512, ECDSAWithSHA1}, ECDSA},
 	}
 	// an issuer certificate object for each signer (only the fields verification reads)
@@ -218,6 +218,9 @@ func TestGvcBoundedIssue(t *testing.T) {
 						!bytes.Equal(c.SubjectKeyId, tmpl.SubjectKeyId) {
 						fail(id + ":fields")
 					}
+					if alg != 0 && c.SignatureAlgorithm != alg {
+						fail(id + ":fields")
+					}
 					for i := range tmpl.ExtKeyUsage {
 						if i < len(c.ExtKeyUsage) && c.ExtKeyUsage[i] != tmpl.ExtKeyUsage[i] {
 							fail(id + ":fields")
@@ -308,6 +311,9 @@ func TestGvcBoundedIssue(t *testing.T) {
 					!sameStrs(r.EmailAddresses, tmpl.EmailAddresses) || len(r.IPAddresses) != 1 || !r.IPAddresses[0].Equal(tmpl.IPAddresses[0]) {
 					fail(id + ":fields")
 				}
+				if alg != 0 && r.SignatureAlgorithm != alg {
+					fail(id + ":fields")
+				}
 				if err := r.CheckSignature(); err != nil {
 					fail(id + ":verify")
 					return
@@ -356,6 +362,9 @@ func TestGvcBoundedIssue(t *testing.T) {
 				rc := l.TBSCertList.RevokedCertificates
 				if len(rc) != 2 || rc[0].SerialNumber.Cmp(big.NewInt(5)) != 0 || rc[1].SerialNumber.Cmp(serial20) != 0 ||
 					!l.TBSCertList.ThisUpdate.Equal(tmpl.ThisUpdate) || !l.TBSCertList.NextUpdate.Equal(tmpl.NextUpdate) {
+					fail(id + ":fields")
+				}
+				if alg != 0 && getSignatureAlgorithmFromAI(l.SignatureAlgorithm) != alg {
 					fail(id + ":fields")
 				}
 				if err := issuer.CheckCRLSignature(l); err != nil {
